@@ -12,7 +12,13 @@ ASSUMPTIONS = [
 
 def explore(ctx):
     n = 110 if ctx.tier == "quick" else 4000
-    return ce.explore_cache(ctx, PROPS, n, steps=6)
+    res = ce.explore_cache(ctx, PROPS, n, steps=6)
+    if not res["violations"]:
+        from harness import c08_files
+        f = c08_files.files_explore(ctx)
+        res["violations"] += f["violations"]
+        res["coverage"].update(f["coverage"])
+    return res
 
 
 def search(ctx, broken):
@@ -31,4 +37,8 @@ def search(ctx, broken):
 
 
 def replay(ctx, payload):
-    return ce.replay_cache(ctx, payload.get("witness", payload), PROPS)
+    w = payload.get("witness", payload)
+    if w.get("replay_fn") == "files":
+        from harness import c08_files
+        return c08_files.files_explore(ctx, replay=w)
+    return ce.replay_cache(ctx, w, PROPS)
